@@ -22,11 +22,23 @@
 //!  * crossed - A owns an IPv4 and a dual-stack IPv6 socket, B reaches A through a forwarder that
 //!              delivers the handshake to the other socket (and loses what A sends from there): no
 //!              session from an address whose challenge was never answered: C03 (controls: everything through one socket must work, C14)
+//!  * sendfail - A's send task is handed a datagram it cannot send (a destination of a family it has no
+//!              socket for, or one the OS refuses); the next thing A puts on the wire - a request to the
+//!              live node B, the answer to a request of B, a request to a plain UDP listener L that decodes
+//!              everything A sends to it with its own node id - must be unaffected: C05, C04, C14, C20
+//!  * held    - B's application holds a TALK request of A while something else happens on the session
+//!              (B's own request to A times out for good; A sends an authenticated message B's decoder
+//!              rejects; the session becomes older than session_timeout although it is in use; a
+//!              duplicate of A's first datagram makes B issue a second WHOAREYOU that expires); when the
+//!              application then responds (or drops the request object) the answer must reach A: C20, C04
 //!
 //! Time: "not earlier than" statements are lower bounds on measured real time; a success has 5 s
 //! (request_timeout 2.5 s, two transmissions) before it counts as a failure, and "no outcome at all"
 //! means nothing came back 3 s (6 s for the short timeouts of silent peers, 8 s for lookups) after
-//! the moment the node itself had to give up.  Cases run concurrently (six at a time); every node
+//! the moment the node itself had to give up.  In `held` the requester transmits once and waits 8 s,
+//! the answer has 5 s from the moment the application gave it, and the session-age variant is
+//! judged only when the measured time between request and answer left 1.5 s of the session
+//! timeout.  Cases run concurrently (six at a time); every node
 //! of a case has its own 127.x.y.z address, so bans by IP stay inside the case.
 //!
 //! `harness e2e [--focus cNN] --seed S --cases N --out DIR [--only I]`
@@ -39,7 +51,7 @@ use std::net::{IpAddr, Ipv4Addr, Ipv6Addr, SocketAddr, SocketAddrV6, UdpSocket a
 use std::sync::Arc;
 use std::time::{Duration, Instant};
 
-const PROPS: [&str; 9] = ["C03", "C04", "C09", "C10", "C12", "C13", "C14", "C17", "C20"];
+const PROPS: [&str; 10] = ["C03", "C04", "C05", "C09", "C10", "C12", "C13", "C14", "C17", "C20"];
 
 /// serialises the sections that rely on the process-wide permit/ban list (`Discv5::new` replaces
 /// the whole list): node construction takes it shared, a ban section exclusively
@@ -115,11 +127,19 @@ struct Cfg {
     filter: bool,
     limiter: Option<Limit>,
     peer_update_min: Option<usize>,
+    session_timeout_ms: Option<u64>,
 }
 
 impl Cfg {
     fn generous() -> Cfg {
-        Cfg { request_timeout_ms: 2500, retries: 2, query_peer_timeout_ms: None, query_timeout_ms: None, parallelism: None, filter: false, limiter: None, peer_update_min: None }
+        Cfg { request_timeout_ms: 2500, retries: 2, query_peer_timeout_ms: None, query_timeout_ms: None, parallelism: None, filter: false, limiter: None, peer_update_min: None, session_timeout_ms: None }
+    }
+    /// one transmission, no outcome before 8 s: nothing is retransmitted while an answer is held back
+    fn patient() -> Cfg {
+        let mut c = Cfg::generous();
+        c.request_timeout_ms = 8000;
+        c.retries = 1;
+        c
     }
     fn text(&self) -> String {
         let mut s = format!("request_timeout({} ms), request_retries({})", self.request_timeout_ms, self.retries);
@@ -142,6 +162,9 @@ impl Cfg {
         }
         if let Some(x) = self.peer_update_min {
             s += &format!(", enr_peer_update_min({})", x);
+        }
+        if let Some(x) = self.session_timeout_ms {
+            s += &format!(", session_timeout({} ms)", x);
         }
         s
     }
@@ -174,6 +197,9 @@ impl Cfg {
         }
         if let Some(x) = self.peer_update_min {
             b.enr_peer_update_min(x);
+        }
+        if let Some(x) = self.session_timeout_ms {
+            b.session_timeout(Duration::from_millis(x));
         }
         b.build()
     }
@@ -260,6 +286,8 @@ enum Behave {
     Respond(Vec<u8>),
     Drop,
     RespondLate(u64, Vec<u8>),
+    /// the application keeps the request object until the case takes it (`App::held`)
+    Hold,
 }
 
 #[derive(Default)]
@@ -268,6 +296,8 @@ struct App {
     plan: HashMap<Vec<u8>, Behave>,
     /// TALK requests delivered to the application: protocol, body, requester
     delivered: Vec<(Vec<u8>, Vec<u8>, NodeId)>,
+    /// request objects the application holds, by request body, with the time of delivery
+    held: HashMap<Vec<u8>, Vec<(discv5::TalkRequest, Instant)>>,
     socket_updated: Vec<SocketAddr>,
     sessions: Vec<(NodeId, SocketAddr)>,
 }
@@ -309,6 +339,10 @@ impl Node {
                                     tokio::time::sleep(Duration::from_millis(ms)).await;
                                     let _ = req.respond(p);
                                 });
+                            }
+                            Some(Behave::Hold) => {
+                                let body = req.body().to_vec();
+                                app.lock().held.entry(body).or_default().push((req, Instant::now()));
                             }
                             Some(Behave::Drop) | None => drop(req),
                         }
@@ -532,21 +566,28 @@ enum Op {
 }
 
 fn op_text(op: &Op) -> String {
+    op_text_between(op, "A", "B")
+}
+
+fn op_text_between(op: &Op, a: &str, b: &str) -> String {
     match op {
-        Op::Ping => "A.send_ping(B)".into(),
-        Op::FindNode(d) => format!("A.find_node_designated_peer(B, {:?})", d),
+        Op::Ping => format!("{}.send_ping({})", a, b),
+        Op::FindNode(d) => format!("{}.find_node_designated_peer({}, {:?})", a, b, d),
         Op::Talk { enr_less, proto, body, behave } => format!(
-            "A.talk_req({}, protocol {}, request {}); B's application {}",
-            if *enr_less { "NodeContact::new(B's key, B's socket, no record)" } else { "B's record" },
+            "{}.talk_req({}, protocol {}, request {}); {}'s application {}",
+            a,
+            if *enr_less { format!("NodeContact::new({}'s key, {}'s socket, no record)", b, b) } else { format!("{}'s record", b) },
             hexs(proto),
             hexs(body),
+            b,
             match behave {
                 Behave::Respond(p) => format!("responds {}", hexs(p)),
                 Behave::Drop => "drops the request".into(),
                 Behave::RespondLate(ms, p) => format!("responds {} after {} ms", hexs(p), ms),
+                Behave::Hold => "holds the request".into(),
             }
         ),
-        Op::PeerPings(k) => format!("B.send_ping(A) x {} (not awaited)", k),
+        Op::PeerPings(k) => format!("{}.send_ping({}) x {} (not awaited)", b, a, k),
     }
 }
 
@@ -687,12 +728,24 @@ fn lost_class(what: &str, exempt: bool, hung: bool) -> String {
     }
 }
 
+/// The stable text of a failed round trip with a live, honest node right after a datagram of the
+/// node under test could not be sent.
+fn lost_after_sendfail(what: &str, hung: bool) -> String {
+    format!("{} {} although both nodes are alive: the datagram followed one that the send task of the node under test could not send (another destination); every datagram a node puts on the wire is the encoding of the packet for its destination, whatever happened to earlier ones", what, if hung { "had no outcome at all" } else { "failed" })
+}
+
 /// The checks of one TALK round trip (requester's side and the serving application's side).
 fn check_talk(out: &mut CaseOut, who: &str, extra: &[&'static str], adversity: &str, r: Outcome<Vec<u8>>, dt: Duration, body: &[u8], proto: &[u8], behave: &Behave, app_reads: bool, app: &Arc<Mutex<App>>, requester: NodeId) {
+    check_talk_ctx(out, who, extra, adversity, r, dt, body, proto, behave, app_reads, app, requester, false)
+}
+
+#[allow(clippy::too_many_arguments)]
+fn check_talk_ctx(out: &mut CaseOut, who: &str, extra: &[&'static str], adversity: &str, r: Outcome<Vec<u8>>, dt: Duration, body: &[u8], proto: &[u8], behave: &Behave, app_reads: bool, app: &Arc<Mutex<App>>, requester: NodeId, after_sendfail: bool) {
+    let lost = |hung: bool| if after_sendfail { lost_after_sendfail(&format!("TALK request of {}", who), hung) } else { lost_class(&format!("TALK request of {}", who), !extra.is_empty(), hung) };
     let expected: Vec<u8> = match behave {
         _ if !app_reads => vec![],
         Behave::Respond(p) | Behave::RespondLate(_, p) => p.clone(),
-        Behave::Drop => vec![],
+        Behave::Drop | Behave::Hold => vec![],
     };
     let mut props = vec!["C20", "C04"];
     props.extend_from_slice(extra);
@@ -705,11 +758,11 @@ fn check_talk(out: &mut CaseOut, who: &str, extra: &[&'static str], adversity: &
         }
         Outcome::Err(e) => {
             out.observed.push(format!("-> Err({}) after {} ms", e, dt.as_millis()));
-            out.fail(&props, lost_class(&format!("TALK request of {}", who), !extra.is_empty(), false), format!("{} after {} ms ({})", e, dt.as_millis(), adversity));
+            out.fail(&props, lost(false), format!("{} after {} ms ({})", e, dt.as_millis(), adversity));
         }
         Outcome::Hung => {
             out.observed.push(format!("-> no outcome after {} ms", dt.as_millis()));
-            out.fail(&props, lost_class(&format!("TALK request of {}", who), !extra.is_empty(), true), format!("waited {} ms ({})", dt.as_millis(), adversity));
+            out.fail(&props, lost(true), format!("waited {} ms ({})", dt.as_millis(), adversity));
         }
     }
     if app_reads {
@@ -1499,45 +1552,902 @@ async fn run_crossed(env: Env, idx: u64, p: CrossedPlan) -> CaseOut {
 }
 
 // ------------------------------------------------------------------------------------------------
+// kind `sendfail`
 
-fn kind_weights(focus: Option<&str>) -> [u64; 6] {
-    match focus {
-        Some("C03") => [2, 0, 0, 0, 3, 6],
-        Some("C04") => [5, 5, 2, 0, 1, 0],
-        Some("C09") | Some("C10") => [1, 1, 8, 0, 0, 0],
-        Some("C12") => [2, 0, 0, 0, 7, 1],
-        Some("C13") => [8, 1, 0, 0, 1, 0],
-        Some("C14") => [5, 0, 0, 1, 4, 1],
-        Some("C17") => [2, 0, 0, 8, 0, 0],
-        Some("C20") => [7, 0, 0, 0, 3, 0],
-        _ => [5, 2, 2, 2, 2, 1],
+/// How A is handed the destination its send task cannot send to.
+#[derive(Clone, Copy, Debug, PartialEq, Eq)]
+enum Via {
+    Ping,
+    FindNode,
+    TalkRecord,
+    TalkContact,
+    /// the record is added to A's table and a lookup contacts it
+    Lookup,
+}
+
+#[derive(Clone, Debug)]
+enum Follow {
+    /// A's request to the live node B
+    AtoB(Op),
+    /// B's request to A: A's answer is the datagram that follows the failed one
+    BtoA(Op),
+    /// A's request (0 PING, 1 FINDNODE, 2 TALK) to the listener L
+    AtoL(u64),
+}
+
+struct FailRound {
+    key_u: CombinedKey,
+    /// the node id L plays when the request of this round goes to L
+    key_l: CombinedKey,
+    dest_pick: u64,
+    via_pick: u64,
+    /// time between handing A the unsendable request and the next operation
+    gap_ms: u64,
+    follow: Follow,
+}
+
+struct SendfailPlan {
+    key_a: CombinedKey,
+    key_b: CombinedKey,
+    key_l: CombinedKey,
+    filter: bool,
+    /// A and B exchange a PING first (what follows the failed datagram is then a message on an
+    /// established session, not a handshake)
+    warm: bool,
+    rounds: Vec<FailRound>,
+}
+
+fn gen_sendfail(rng: &mut Rng, focus: Option<&str>) -> SendfailPlan {
+    let n = rng.range(2, 4);
+    let mut rounds = vec![];
+    for k in 0..n {
+        let w: [u64; 3] = match focus {
+            Some("C04") => [6, 1, 2],
+            Some("C14") | Some("C20") => [2, 6, 1],
+            _ => [3, 3, 3],
+        };
+        let op = |rng: &mut Rng| match (focus, rng.below(3)) {
+            (Some("C20"), 0) | (_, 2) => {
+                // answered at once or dropped: the answer is the datagram after the failed one
+                match gen_talk(rng, k) {
+                    Op::Talk { enr_less, proto, body, behave: Behave::RespondLate(_, p) } => Op::Talk { enr_less, proto, body, behave: Behave::Respond(p) },
+                    o => o,
+                }
+            }
+            (_, 0) => Op::Ping,
+            _ => Op::FindNode(gen_distances(rng)),
+        };
+        let follow = match rng.weighted(&w) {
+            0 => Follow::AtoB(op(rng)),
+            1 => Follow::BtoA(op(rng)),
+            _ => Follow::AtoL(rng.below(3)),
+        };
+        rounds.push(FailRound { key_u: key_from(rng), key_l: key_from(rng), dest_pick: rng.below(1 << 16), via_pick: rng.below(1 << 16), gap_ms: *rng.pick(&[5u64, 10, 30, 80]), follow });
+    }
+    SendfailPlan { key_a: key_from(rng), key_b: key_from(rng), key_l: key_from(rng), filter: rng.chance(1, 2), warm: rng.chance(1, 2), rounds }
+}
+
+/// Destinations a node that listens on `ip` (IPv4 only) cannot send to, with the reason: an IPv6
+/// destination always (no socket of that family), IPv4 destinations when a probe socket bound to
+/// the same address is refused the datagram by the OS.
+fn unsendable_destinations(ip: Ipv4Addr, idx: u64) -> Vec<(SocketAddr, String)> {
+    let port = 9000 + (idx % 1000) as u16;
+    let mut v = vec![(SocketAddr::from((Ipv6Addr::LOCALHOST, port)), "an IPv6 destination, the node has no IPv6 socket".to_string())];
+    let candidates = [
+        SocketAddr::from((Ipv4Addr::BROADCAST, port)),
+        SocketAddr::from((Ipv4Addr::new(127, 255, 255, 255), port)),
+        SocketAddr::from((Ipv4Addr::new(240, 0, 0, 1), port)),
+        SocketAddr::from((Ipv4Addr::new(192, 0, 2, 77), port)),
+        SocketAddr::from((Ipv4Addr::new(127, 0, 0, 9), 0)),
+    ];
+    if let Ok(probe) = StdUdp::bind((ip, 0)) {
+        for c in candidates {
+            if let Err(e) = probe.send_to(&[0u8; 64], c) {
+                v.push((c, format!("the OS refuses a datagram from {} to it: {}", ip, e)));
+            }
+        }
+    }
+    v
+}
+
+/// A request of `from` to the live node `to`; a lost round trip is a failure of `lost_props`.
+#[allow(clippy::too_many_arguments)]
+async fn round_trip_after_sendfail(out: &mut CaseOut, from_name: &str, from: &Node, to: &Node, op: &Op, wait: Duration, lost_props: &[&'static str], detail: &str) {
+    match op {
+        Op::Ping => {
+            let (r, dt) = call(wait, from.disc.send_ping(to.enr.clone())).await;
+            match r {
+                Outcome::Ok(pong) => {
+                    out.observed.push(format!("-> Ok(PONG seq {} ip {} port {}) after {} ms", pong.enr_seq, pong.ip, pong.port, dt.as_millis()));
+                    let seq = to.disc.local_enr().seq();
+                    if SocketAddr::new(pong.ip, pong.port) != from.sock || pong.enr_seq != seq {
+                        out.fail(&["C14"], "PONG does not carry the responder's sequence number and exactly the source the PING came from", format!("PING from {} to a node with seq {}: PONG seq {} ip {} port {}", from.sock, seq, pong.enr_seq, pong.ip, pong.port));
+                    }
+                }
+                Outcome::Err(e) => {
+                    out.observed.push(format!("-> Err({}) after {} ms", e, dt.as_millis()));
+                    out.fail(lost_props, lost_after_sendfail(&format!("PING of {}", from_name), false), format!("{} after {} ms ({})", e, dt.as_millis(), detail));
+                }
+                Outcome::Hung => {
+                    out.observed.push(format!("-> no outcome after {} ms", dt.as_millis()));
+                    out.fail(lost_props, lost_after_sendfail(&format!("PING of {}", from_name), true), format!("waited {} ms ({})", dt.as_millis(), detail));
+                }
+            }
+        }
+        Op::FindNode(ds) => {
+            let (r, dt) = call(wait, from.disc.find_node_designated_peer(to.enr.clone(), ds.clone())).await;
+            match r {
+                Outcome::Ok(nodes) => {
+                    let mut expected: Vec<Enr> = to.disc.table_entries_enr().into_iter().filter(|e| e.node_id() != from.id && ds.contains(&log2_distance(&to.id, &e.node_id()))).collect();
+                    if ds.contains(&0) {
+                        expected.push(to.disc.local_enr());
+                    }
+                    out.observed.push(format!("-> Ok({:?}) after {} ms", enr_set(&nodes), dt.as_millis()));
+                    if !same_records(&nodes, &expected) {
+                        out.fail(&["C14"], "FINDNODE answer is not exactly the table entries at the requested distances (own record iff distance 0, never the requester)", format!("distances {:?}: expected {:?} received {:?}", ds, enr_set(&expected), enr_set(&nodes)));
+                    }
+                }
+                Outcome::Err(e) => {
+                    out.observed.push(format!("-> Err({}) after {} ms", e, dt.as_millis()));
+                    out.fail(lost_props, lost_after_sendfail(&format!("FINDNODE of {}", from_name), false), format!("{} after {} ms ({})", e, dt.as_millis(), detail));
+                }
+                Outcome::Hung => {
+                    out.observed.push(format!("-> no outcome after {} ms", dt.as_millis()));
+                    out.fail(lost_props, lost_after_sendfail(&format!("FINDNODE of {}", from_name), true), format!("waited {} ms ({})", dt.as_millis(), detail));
+                }
+            }
+        }
+        Op::Talk { enr_less, proto, body, behave } => {
+            to.app.lock().plan.insert(body.clone(), behave.clone());
+            let contact = NodeContact::new(to.enr.public_key(), to.sock, if *enr_less { None } else { Some(to.enr.clone()) });
+            let (r, dt) = call(wait, from.disc.talk_req(contact, proto.clone(), body.clone())).await;
+            let extra: Vec<&'static str> = lost_props.iter().filter(|p| **p != "C20" && **p != "C04").cloned().collect();
+            check_talk_ctx(out, from_name, &extra, detail, r, dt, body, proto, behave, true, &to.app, from.id, true);
+        }
+        Op::PeerPings(_) => {}
     }
 }
 
-/// The kind of a case: the first cases go through the kinds in the order of their weights, the
+async fn run_sendfail(env: Env, idx: u64, p: SendfailPlan) -> CaseOut {
+    let mut out = CaseOut::new("sendfail");
+    let (ip_a, ip_b, ip_l) = (ip_for(env, idx, 1), ip_for(env, idx, 2), ip_for(env, idx, 30));
+    let mut a_cfg = Cfg::generous();
+    a_cfg.filter = p.filter;
+    let b_cfg = Cfg::generous();
+    let mut hist = Hist::default();
+    let a = start_node(idx, 1, ip_a, &p.key_a, &a_cfg, &Advert::Honest, Listen::V4, &mut hist).await;
+    let b = start_node(idx, 2, ip_b, &p.key_b, &b_cfg, &Advert::Honest, Listen::V4, &mut hist).await;
+    let l = start_silent(idx, 30, ip_l, &p.key_l, &mut hist);
+    out.hist = hist;
+    let (a, b, l) = match (a, b, l) {
+        (Some(a), Some(b), Some(l)) => (a, b, l),
+        _ => return out.skipped("bind_failed"),
+    };
+    if !a.attach_app().await || !b.attach_app().await {
+        return out.skipped("no_event_stream");
+    }
+    let dests = unsendable_destinations(ip_a, idx);
+    out.variant = format!("{}{}", if p.warm { "session first" } else { "no session yet" }, if p.filter { ", filter on" } else { ", filter off" });
+    out.config.push(format!("A {}: ListenConfig::Ipv4, {}; listens on {}", ip_a, a_cfg.text(), a.sock));
+    out.config.push(format!("B {}: {}; listens on {}; both applications read their event streams", ip_b, b_cfg.text(), b.sock));
+    out.config.push(format!("L = a bound UDP socket on {} that never answers; every request of A to it is addressed to another node id (a record with that socket), and L decodes every datagram it receives from A with those node ids", l.addr));
+    let mut l_ids: Vec<[u8; 32]> = vec![];
+    let wait = a_cfg.give_up() + Duration::from_secs(3);
+    if p.warm {
+        let op = "A.send_ping(B) (establishes the session)".to_string();
+        out.ops.push(op.clone());
+        out.observed.push(format!("{}:", op));
+        let (r, dt) = call(wait, a.disc.send_ping(b.enr.clone())).await;
+        match r {
+            Outcome::Ok(_) => out.observed.push(format!("-> Ok after {} ms", dt.as_millis())),
+            Outcome::Err(e) => out.fail(&["C14", "C04"], lost_class("PING", false, false), format!("{} after {} ms (no adversity)", e, dt.as_millis())),
+            Outcome::Hung => out.fail(&["C14", "C04"], lost_class("PING", false, true), format!("waited {} ms (no adversity)", dt.as_millis())),
+        }
+    }
+    // the requests to unsendable destinations: (description, handle)
+    let mut doomed: Vec<(String, tokio::task::JoinHandle<Result<String, String>>)> = vec![];
+    for (k, round) in p.rounds.iter().enumerate() {
+        if out.failures.iter().any(|f| f.props.contains(&"C04") || f.props.contains(&"C05")) {
+            break;
+        }
+        let (dest, why) = dests[(round.dest_pick % dests.len() as u64) as usize].clone();
+        let via = if dest.is_ipv6() {
+            // only a contact built by the application can carry an address of the other family
+            Via::TalkContact
+        } else {
+            [Via::Ping, Via::FindNode, Via::TalkRecord, Via::TalkContact, Via::Lookup][(round.via_pick % 5) as usize]
+        };
+        let u_enr = {
+            let mut bld = Enr::builder();
+            if let SocketAddr::V4(d) = dest {
+                bld.ip4(*d.ip()).udp4(d.port());
+            }
+            bld.build(&round.key_u).expect("enr")
+        };
+        let u_name = format!("U{} = {} ({})", k, dest, why);
+        out.hist.add(&format!("e2e:sendfail_destination_{}", if dest.is_ipv6() { "other_family" } else { "refused_by_os" }));
+        let fut: std::pin::Pin<Box<dyn std::future::Future<Output = Result<String, String>> + Send>> = match via {
+            Via::Ping => {
+                let f = a.disc.send_ping(u_enr.clone());
+                out.ops.push(format!("A.send_ping(record of {}), not awaited", u_name));
+                Box::pin(async move { f.await.map(|p| format!("{:?}", p)).map_err(|e| format!("{:?}", e)) })
+            }
+            Via::FindNode => {
+                let f = a.disc.find_node_designated_peer(u_enr.clone(), vec![0, 256]);
+                out.ops.push(format!("A.find_node_designated_peer(record of {}, [0, 256]), not awaited", u_name));
+                Box::pin(async move { f.await.map(|v| format!("{:?}", enr_set(&v))).map_err(|e| format!("{:?}", e)) })
+            }
+            Via::TalkRecord | Via::TalkContact => {
+                let c = NodeContact::new(u_enr.public_key(), dest, if via == Via::TalkRecord { Some(u_enr.clone()) } else { None });
+                let f = a.disc.talk_req(c, b"e2e".to_vec(), vec![0xE2, 0xFA, k as u8]);
+                out.ops.push(format!("A.talk_req({} of {}), not awaited", if via == Via::TalkRecord { "record" } else { "NodeContact::new(key, socket, no record)" }, u_name));
+                Box::pin(async move { f.await.map(hex::encode).map_err(|e| format!("{:?}", e)) })
+            }
+            Via::Lookup => {
+                let added = a.disc.add_enr(u_enr.clone()).is_ok();
+                let f = a.disc.find_node(u_enr.node_id());
+                out.ops.push(format!("A.add_enr(record of {}) ({}), A.find_node(..), not awaited", u_name, if added { "added" } else { "refused" }));
+                Box::pin(async move { f.await.map(|v| format!("lookup returned {:?}", enr_set(&v))).map_err(|e| format!("{:?}", e)) })
+            }
+        };
+        // the first poll hands the request to the service; the datagram reaches the send task before
+        // anything the next operation makes A send
+        let mut fut = fut;
+        match within(Duration::from_millis(round.gap_ms), &mut fut).await {
+            Some(r) => out.observed.push(format!("request to U{} ended at once: {:?}", k, r)),
+            None => doomed.push((format!("request to U{}", k), tokio::spawn(fut))),
+        }
+        let detail = format!("A had just been handed a request to {}", u_name);
+        match &round.follow {
+            Follow::AtoB(op) => {
+                out.hist.add("e2e:sendfail_then_request_to_live_node");
+                out.ops.push(op_text(op));
+                out.observed.push(format!("{}:", op_text(op)));
+                round_trip_after_sendfail(&mut out, "A", &a, &b, op, wait, &["C05", "C04"], &detail).await;
+            }
+            Follow::BtoA(op) => {
+                out.hist.add("e2e:sendfail_then_answer_to_live_node");
+                let text = op_text_between(op, "B", "A");
+                out.ops.push(text.clone());
+                out.observed.push(format!("{}:", text));
+                let props: &[&'static str] = if matches!(op, Op::Talk { .. }) { &["C05", "C20", "C04"] } else { &["C05", "C14", "C04"] };
+                round_trip_after_sendfail(&mut out, "B (the answer of A is the datagram after the unsendable one)", &b, &a, op, wait, props, &detail).await;
+            }
+            Follow::AtoL(req) => {
+                out.hist.add("e2e:sendfail_then_request_to_listener");
+                let name = ["send_ping", "find_node_designated_peer", "talk_req"][*req as usize];
+                let l_enr = match l.addr {
+                    SocketAddr::V4(s) => make_enr(&round.key_l, *s.ip(), s.port(), &Advert::Honest),
+                    _ => l.enr.clone(),
+                };
+                l_ids.push(l_enr.node_id().raw());
+                out.ops.push(format!("A.{}(L as node {}..), not awaited", name, hex::encode(&l_enr.node_id().raw()[..6])));
+                let fut: std::pin::Pin<Box<dyn std::future::Future<Output = Result<String, String>> + Send>> = match req {
+                    0 => {
+                        let f = a.disc.send_ping(l_enr.clone());
+                        Box::pin(async move { f.await.map(|p| format!("{:?}", p)).map_err(|e| format!("{:?}", e)) })
+                    }
+                    1 => {
+                        let f = a.disc.find_node_designated_peer(l_enr.clone(), vec![0]);
+                        Box::pin(async move { f.await.map(|v| format!("{:?}", enr_set(&v))).map_err(|e| format!("{:?}", e)) })
+                    }
+                    _ => {
+                        let f = a.disc.talk_req(NodeContact::new(l_enr.public_key(), l.addr, Some(l_enr.clone())), b"e2e".to_vec(), vec![0xE2, 0xFB, k as u8]);
+                        Box::pin(async move { f.await.map(hex::encode).map_err(|e| format!("{:?}", e)) })
+                    }
+                };
+                let mut fut = fut;
+                match within(Duration::from_millis(60), &mut fut).await {
+                    Some(r) => out.observed.push(format!("request to L ended at once: {:?}", r)),
+                    None => doomed.push(("request to L".to_string(), tokio::spawn(fut))),
+                }
+                check_listener(&mut out, &l, &l_ids, &a, &detail);
+            }
+        }
+    }
+    tokio::time::sleep(Duration::from_millis(50)).await;
+    check_listener(&mut out, &l, &l_ids, &a, "end of the case");
+    // nothing that was addressed to a destination that cannot answer is reported as answered
+    for (what, h) in doomed {
+        if h.is_finished() {
+            if let Ok(Ok(v)) = h.await {
+                if !v.starts_with("lookup returned") {
+                    out.fail(&["C04"], "a request to a destination that cannot answer was reported as answered", format!("{} -> Ok({})", what, v));
+                }
+            }
+        } else {
+            h.abort();
+        }
+    }
+    drop(a);
+    drop(b);
+    out
+}
+
+/// Every datagram L received from A so far decodes under one of the node ids A addressed at L's socket.
+fn check_listener(out: &mut CaseOut, l: &Silent, ids: &[[u8; 32]], a: &Node, when: &str) {
+    let mut buf = [0u8; 4096];
+    let (mut good, mut foreign) = (0u64, 0u64);
+    while let Ok((n, src)) = l.sock.recv_from(&mut buf) {
+        if src != a.sock {
+            foreign += 1;
+            continue;
+        }
+        let mut last_err = String::new();
+        let decodes = ids.iter().any(|id| match discv5::verif::packet::packet_decode(id, &buf[..n]) {
+            Ok(_) => true,
+            Err(e) => {
+                last_err = e;
+                false
+            }
+        });
+        match decodes {
+            true => good += 1,
+            false => {
+                let e = last_err;
+                out.fail(
+                    &["C05"],
+                    "a datagram the node put on the wire is not the encoding of a packet for the node it was sent to (it does not decode under the destination's node id)",
+                    format!("{} bytes from {} to L: Packet::decode with each of the {} node ids A was given for L's socket fails ({}); datagram {} ({})", n, src, ids.len(), e, hex::encode(&buf[..n.min(96)]), when),
+                );
+            }
+        }
+    }
+    if good + foreign > 0 {
+        out.observed.push(format!("L received {} well-formed datagrams from A{}", good, if foreign > 0 { format!(" and {} from elsewhere", foreign) } else { String::new() }));
+    }
+    out.hist.addn("e2e:sendfail_listener_datagrams_decoded", good);
+}
+
+// ------------------------------------------------------------------------------------------------
+// kind `held`
+
+#[derive(Clone, Debug)]
+enum Disturb {
+    /// B's own request to A (a FINDNODE A's decoder rejects, so A stays silent) times out for good
+    OwnTimeout,
+    /// A sends B an authenticated message B's decoder rejects (FINDNODE with a distance above 256)
+    Undecodable,
+    /// the session becomes older than session_timeout (configured at A, at B or at both) while it
+    /// is in use: a first TALK establishes it, the held one uses it at 60 % of the timeout
+    Age { at_a: bool, at_b: bool },
+    /// A and B talk through a forwarder that delivers this many duplicates of A's first datagram
+    /// right before A's handshake: B may issue a second WHOAREYOU next to the new session, nobody
+    /// answers it, it expires
+    DupChallenge(u64),
+    /// nothing is held: B's own requests to A (FINDNODEs A's decoder rejects, one every so many
+    /// milliseconds) time out for good one after the other while B serves PINGs and FINDNODEs of A
+    TimeoutStream { every_ms: u64, lanes: u64, ops: Vec<Op> },
+}
+
+struct HeldPlan {
+    key_a: CombinedKey,
+    key_b: CombinedKey,
+    disturb: Disturb,
+    filter_a: bool,
+    filter_b: bool,
+    proto: Vec<u8>,
+    body: Vec<u8>,
+    /// what the application finally does: respond with this payload, or drop the request object
+    answer: Option<Vec<u8>>,
+    /// B's request timeout (its requests are transmitted once)
+    b_timeout_ms: u64,
+    /// a round trip before the TALK (the TALK then travels on an established session)
+    warm: bool,
+}
+
+const AGE_SESSION_TIMEOUT_MS: u64 = 4000;
+
+/// The disturbances of `held` that a focused run goes through first (session age, the longest
+/// case, first).
+fn held_prescribed(focus: Option<&str>) -> &'static [u64] {
+    match focus {
+        Some("C14") => &[4],
+        Some("C20") => &[2, 3, 0, 1],
+        _ => &[2, 3, 0, 1, 4],
+    }
+}
+
+fn gen_held(rng: &mut Rng, prescribed: Option<u64>, focus: Option<&str>) -> HeldPlan {
+    let w: [u64; 5] = match focus {
+        Some("C14") => [0, 0, 0, 0, 1],
+        Some("C20") => [3, 3, 3, 3, 0],
+        _ => [3, 3, 3, 3, 2],
+    };
+    let drawn = rng.weighted(&w) as u64;
+    let disturb = match prescribed.unwrap_or(drawn) {
+        0 => Disturb::OwnTimeout,
+        1 => Disturb::Undecodable,
+        2 => match rng.below(3) {
+            0 => Disturb::Age { at_a: true, at_b: false },
+            1 => Disturb::Age { at_a: false, at_b: true },
+            _ => Disturb::Age { at_a: true, at_b: true },
+        },
+        3 => Disturb::DupChallenge(rng.range(2, 4)),
+        _ => {
+            let ops = (0..6).map(|_| if rng.chance(1, 2) { Op::Ping } else { Op::FindNode(gen_distances(rng)) }).collect();
+            // one lane mostly: with several, the re-keying that the next request starts replays the
+            // requests in flight
+            Disturb::TimeoutStream { every_ms: rng.range(5, 15), lanes: if rng.chance(3, 4) { 1 } else { 2 }, ops }
+        }
+    };
+    let plen = rng.range(0, 8) as usize;
+    let proto = rng.bytes(plen);
+    let mut body = vec![0xE2, 0x4E];
+    let n = rng.range(0, 40) as usize;
+    body.extend(rng.bytes(n));
+    let answer = if rng.chance(3, 4) {
+        let n = if rng.chance(1, 5) { rng.range(200, 900) } else { rng.range(0, 40) } as usize;
+        Some(rng.bytes(n))
+    } else {
+        None
+    };
+    let warm = rng.chance(1, 2) && !matches!(disturb, Disturb::DupChallenge(_));
+    HeldPlan { key_a: key_from(rng), key_b: key_from(rng), disturb, filter_a: rng.chance(1, 2), filter_b: rng.chance(1, 2), proto, body, answer, b_timeout_ms: rng.range(300, 500), warm }
+}
+
+async fn run_held(env: Env, idx: u64, p: HeldPlan) -> CaseOut {
+    let mut out = CaseOut::new("held");
+    out.variant = match &p.disturb {
+        Disturb::OwnTimeout => "the serving node's own request to the requester times out".to_string(),
+        Disturb::Undecodable => "the requester sends a message the decoder rejects".to_string(),
+        Disturb::Age { at_a, at_b } => format!("session older than session_timeout but in use ({})", match (at_a, at_b) { (true, true) => "both nodes", (true, false) => "requester", _ => "serving node" }),
+        Disturb::DupChallenge(_) => "duplicates of the first datagram before the handshake".to_string(),
+        Disturb::TimeoutStream { .. } => return run_timeout_stream(env, idx, p).await,
+    } + if p.answer.is_some() { ", application responds" } else { ", application drops the request object" };
+    let via_forwarder = matches!(p.disturb, Disturb::DupChallenge(_));
+    let (ip_a, ip_b) = (ip_for(env, idx, 1), ip_for(env, idx, 2));
+    // A transmits once and waits 8 s: nothing is retransmitted while the answer is held back
+    let mut a_cfg = Cfg::patient();
+    a_cfg.filter = p.filter_a;
+    let mut b_cfg = Cfg::generous();
+    b_cfg.filter = p.filter_b;
+    if matches!(p.disturb, Disturb::OwnTimeout | Disturb::DupChallenge(_)) {
+        b_cfg.request_timeout_ms = p.b_timeout_ms;
+        b_cfg.retries = 1;
+    }
+    if let Disturb::Age { at_a, at_b } = p.disturb {
+        if at_a {
+            a_cfg.session_timeout_ms = Some(AGE_SESSION_TIMEOUT_MS);
+        }
+        if at_b {
+            b_cfg.session_timeout_ms = Some(AGE_SESSION_TIMEOUT_MS);
+        }
+    }
+    // the forwarder X
+    let mut proxy = None;
+    if via_forwarder {
+        let ip_x = ip_for(env, idx, 9);
+        for attempt in 0..6 {
+            if let Ok(s) = tokio::net::UdpSocket::bind((ip_x, port_for(idx, 9, attempt))).await {
+                proxy = Some(Arc::new(s));
+                break;
+            }
+            out.hist.add("e2e:bind_retries");
+        }
+        if proxy.is_none() {
+            return out.skipped("bind_failed");
+        }
+    }
+    let adv = match &proxy {
+        Some(px) => Advert::Fixed(px.local_addr().unwrap(), false),
+        None => Advert::Honest,
+    };
+    let mut hist = Hist::default();
+    let a = start_node(idx, 1, ip_a, &p.key_a, &a_cfg, &adv, Listen::V4, &mut hist).await;
+    let b = start_node(idx, 2, ip_b, &p.key_b, &b_cfg, &adv, Listen::V4, &mut hist).await;
+    for (k, v) in &hist.0 {
+        out.hist.addn(k, *v);
+    }
+    let (a, b) = match (a, b) {
+        (Some(a), Some(b)) => (a, b),
+        _ => return out.skipped("bind_failed"),
+    };
+    if !b.attach_app().await {
+        return out.skipped("no_event_stream");
+    }
+    out.config.push(format!("A {} (requester): {}; listens on {}", ip_a, a_cfg.text(), a.sock));
+    out.config.push(format!("B {} (serving node): {}; listens on {}; its application reads the event stream", ip_b, b_cfg.text(), b.sock));
+    let mut forwarder = None;
+    // where A reaches B and B reaches A
+    let (b_at, a_at) = match &proxy {
+        Some(px) => {
+            let x = px.local_addr().unwrap();
+            let dups = if let Disturb::DupChallenge(d) = p.disturb { d } else { 0 };
+            out.config.push(format!("both records advertise the forwarder X = {}: X passes A's datagrams to B and B's to A; before A's second datagram (the handshake) it delivers {} more cop{} of A's first datagram", x, dups, if dups == 1 { "y" } else { "ies" }));
+            let (px, a_sock, b_sock) = (px.clone(), a.sock, b.sock);
+            forwarder = Some(tokio::spawn(async move {
+                let mut buf = [0u8; 2048];
+                let mut from_a = 0u64;
+                let mut first: Vec<u8> = vec![];
+                loop {
+                    let (n, src) = match px.recv_from(&mut buf).await {
+                        Ok(x) => x,
+                        Err(_) => continue,
+                    };
+                    if src == a_sock {
+                        from_a += 1;
+                        if from_a == 1 {
+                            first = buf[..n].to_vec();
+                        } else if from_a == 2 {
+                            for _ in 0..dups {
+                                let _ = px.send_to(&first, b_sock).await;
+                            }
+                        }
+                        let _ = px.send_to(&buf[..n], b_sock).await;
+                    } else if src == b_sock {
+                        let _ = px.send_to(&buf[..n], a_sock).await;
+                    }
+                }
+            }));
+            (x, x)
+        }
+        None => (b.sock, a.sock),
+    };
+    let _ = a_at;
+    let b_contact = |with_record: bool| NodeContact::new(b.enr.public_key(), b_at, if with_record { Some(b.enr.clone()) } else { None });
+    let finish = |out: CaseOut, forwarder: Option<tokio::task::JoinHandle<()>>| {
+        if let Some(f) = forwarder {
+            f.abort();
+        }
+        out
+    };
+    // a first round trip
+    let mut established_by: Option<Instant> = None;
+    if p.warm || matches!(p.disturb, Disturb::Age { .. }) {
+        let body1 = vec![0xE2, 0x01];
+        b.app.lock().plan.insert(body1.clone(), Behave::Respond(vec![0x52, 0x31]));
+        let op = "A.talk_req(B's record, protocol 6532, request e201); B's application responds 5231".to_string();
+        out.ops.push(op.clone());
+        out.observed.push(format!("{}:", op));
+        let (r, dt) = call(Duration::from_secs(5), a.disc.talk_req(b_contact(true), b"e2".to_vec(), body1.clone())).await;
+        let ok = matches!(r, Outcome::Ok(_));
+        check_talk(&mut out, "A", &[], "no adversity", r, dt, &body1, b"e2", &Behave::Respond(vec![0x52, 0x31]), true, &b.app, a.id);
+        if !ok {
+            return finish(out, forwarder);
+        }
+        established_by = Some(Instant::now());
+    }
+    if let (Disturb::Age { .. }, Some(t1)) = (&p.disturb, established_by) {
+        let at = Duration::from_millis(AGE_SESSION_TIMEOUT_MS * 6 / 10);
+        out.ops.push(format!("[{} ms after the first answer]", at.as_millis()));
+        tokio::time::sleep(at.saturating_sub(t1.elapsed())).await;
+    }
+    // the TALK request that the application holds
+    b.app.lock().plan.insert(p.body.clone(), Behave::Hold);
+    let op = format!("A.talk_req(B's record, protocol {}, request {}); B's application holds the request", hexs(&p.proto), hexs(&p.body));
+    out.ops.push(op.clone());
+    let t_send = Instant::now();
+    let mut talk = Box::pin(a.disc.talk_req(b_contact(true), p.proto.clone(), p.body.clone()));
+    let mut early: Option<Result<Vec<u8>, String>> = None;
+    let delivered_by = loop {
+        if let Some(r) = within(Duration::from_millis(15), &mut talk).await {
+            early = Some(r.map_err(|e| format!("{:?}", e)));
+            break None;
+        }
+        if b.app.lock().held.get(&p.body).map(|v| !v.is_empty()).unwrap_or(false) {
+            break Some(Instant::now());
+        }
+        if t_send.elapsed() > Duration::from_secs(5) {
+            break None;
+        }
+    };
+    let delivered_by = match delivered_by {
+        Some(t) => t,
+        None => {
+            out.observed.push(format!("{}: not delivered to B's application within {} ms; outcome at A so far: {:?}", op, t_send.elapsed().as_millis(), early));
+            out.fail(&["C20", "C04"], lost_class("TALK request of A", false, early.is_none()), format!("the request was not delivered to the serving application within {} ms (outcome {:?})", t_send.elapsed().as_millis(), early));
+            return finish(out, forwarder);
+        }
+    };
+    out.observed.push(format!("{}: delivered to B's application after {} ms", op, (delivered_by - t_send).as_millis()));
+    // what happens while the application holds the request
+    let meanwhile: String = match &p.disturb {
+        Disturb::OwnTimeout => {
+            let op = "B.find_node_designated_peer(A's record, [300])".to_string();
+            out.ops.push(op.clone());
+            let (r, dt) = call(b_cfg.give_up() + Duration::from_secs(6), b.disc.find_node_designated_peer(a.enr.clone(), vec![300])).await;
+            let r = match r {
+                Outcome::Ok(v) => format!("Ok({:?})", enr_set(&v)),
+                Outcome::Err(e) => format!("Err({})", e),
+                Outcome::Hung => "no outcome".to_string(),
+            };
+            out.observed.push(format!("{}: -> {} after {} ms", op, r, dt.as_millis()));
+            format!("B's own FINDNODE [300] to A ended with {} after {} ms", r, dt.as_millis())
+        }
+        Disturb::Undecodable => {
+            let op = "A.find_node_designated_peer(B's record, [300]), not awaited; 300 ms pass".to_string();
+            out.ops.push(op);
+            let f = a.disc.find_node_designated_peer(b.enr.clone(), vec![300]);
+            tokio::spawn(async move {
+                let _ = within(Duration::from_secs(10), f).await;
+            });
+            tokio::time::sleep(Duration::from_millis(300)).await;
+            "A had sent B a FINDNODE asking for distance 300 (authenticated, rejected by the decoder) 300 ms earlier".to_string()
+        }
+        Disturb::Age { .. } => {
+            let t1 = established_by.unwrap();
+            let until = Duration::from_millis(AGE_SESSION_TIMEOUT_MS + 300);
+            tokio::time::sleep(until.saturating_sub(t1.elapsed())).await;
+            out.ops.push(format!("[until {} ms after the first answer]", until.as_millis()));
+            format!("the session was established more than {} ms ago and last used {} ms ago; session_timeout {} ms", t1.elapsed().as_millis(), t_send.elapsed().as_millis(), AGE_SESSION_TIMEOUT_MS)
+        }
+        Disturb::TimeoutStream { .. } => String::new(),
+        Disturb::DupChallenge(d) => {
+            let w = Duration::from_millis(b_cfg.request_timeout_ms + 400);
+            tokio::time::sleep(w).await;
+            out.ops.push(format!("[{} ms pass: a WHOAREYOU of B that nobody answers has expired]", w.as_millis()));
+            format!("B had received {} duplicate(s) of A's first datagram before the handshake; request_timeout of B {} ms", d, b_cfg.request_timeout_ms)
+        }
+    };
+    if early.is_none() {
+        if let Some(r) = within(Duration::from_millis(1), &mut talk).await {
+            early = Some(r.map_err(|e| format!("{:?}", e)));
+        }
+    }
+    if let Some(r) = &early {
+        out.observed.push(format!("A's TALK request ended with {:?} before B's application had responded", r));
+        match r {
+            Ok(v) => out.fail(&["C20"], "TALK: the requester received an answer while the serving application was still holding the request", format!("received {} ({})", hex::encode(v), meanwhile)),
+            Err(e) => out.fail(&["C20", "C04"], "TALK request to a live, honest node failed while the serving application was holding it and the requester's timeout was far away", format!("{} after {} ms; request_timeout of A {} ms ({})", e, t_send.elapsed().as_millis(), a_cfg.request_timeout_ms, meanwhile)),
+        }
+        return finish(out, forwarder);
+    }
+    // the application answers
+    let req = b.app.lock().held.get_mut(&p.body).and_then(|v| v.pop());
+    let (req, _t_delivered) = match req {
+        Some(x) => x,
+        None => return finish(out.skipped("held_request_vanished"), forwarder),
+    };
+    let dups_delivered = b.app.lock().held.get(&p.body).map(|v| v.len()).unwrap_or(0);
+    let t_respond = Instant::now();
+    let held_for = t_respond - t_send;
+    let expected: Vec<u8> = match &p.answer {
+        Some(payload) => {
+            out.ops.push(format!("B's application responds {} ({} ms after A sent the request)", hexs(payload), held_for.as_millis()));
+            if let Err(e) = req.respond(payload.clone()) {
+                out.fail(&["C20"], "TalkRequest::respond returned an error although the node is running", format!("{:?}", e));
+            }
+            payload.clone()
+        }
+        None => {
+            out.ops.push(format!("B's application drops the request object ({} ms after A sent the request)", held_for.as_millis()));
+            drop(req);
+            vec![]
+        }
+    };
+    if dups_delivered > 0 {
+        out.observed.push(format!("(the request was delivered {} more time(s); those objects are dropped at the end)", dups_delivered));
+    }
+    // the precondition of the statement, measured: the session was used less than session_timeout
+    // ago (with 1.5 s to spare) when the application answered
+    if matches!(p.disturb, Disturb::Age { .. }) && held_for + Duration::from_millis(1500) > Duration::from_millis(AGE_SESSION_TIMEOUT_MS) {
+        out.hist.add("e2e:held_inconclusive_machine_too_slow");
+        out.observed.push(format!("inconclusive: {} ms between the request and the application's answer", held_for.as_millis()));
+        return finish(out, forwarder);
+    }
+    let r = within(Duration::from_secs(5), &mut talk).await;
+    let dt = t_respond.elapsed();
+    match r {
+        Some(Ok(v)) => {
+            out.observed.push(format!("-> A received Ok({}) {} ms after the application's answer", hexs(&v), dt.as_millis()));
+            if v != expected {
+                out.fail(&["C20"], "TALK: A received another payload than the serving application gave (empty when it drops the request)", format!("expected {} received {}", hex::encode(&expected), hex::encode(&v)));
+            }
+        }
+        Some(Err(e)) => {
+            out.observed.push(format!("-> A received Err({:?}) {} ms after the application's answer", e, dt.as_millis()));
+            out.fail(
+                &["C20", "C04"],
+                "a TALK request that was delivered to the application of a live node and answered by it (response or dropped request object) failed at the requester although the requester's timeout was far away",
+                format!("{:?} {} ms after the answer, {} ms after the request; request_timeout of A {} ms, one transmission ({})", e, dt.as_millis(), t_send.elapsed().as_millis(), a_cfg.request_timeout_ms, meanwhile),
+            );
+        }
+        None => {
+            out.observed.push(format!("-> nothing reached A within {} ms after the application's answer", dt.as_millis()));
+            out.fail(
+                &["C20", "C04"],
+                "a TALK request that was delivered to the application of a live node and answered by it (response or dropped request object) got no TALKRESP on the wire within 5 s",
+                format!("nothing {} ms after the answer, {} ms after the request; request_timeout of A {} ms, one transmission ({})", dt.as_millis(), t_send.elapsed().as_millis(), a_cfg.request_timeout_ms, meanwhile),
+            );
+        }
+    }
+    out.hist.add(&format!("e2e:held_{}", match p.disturb { Disturb::OwnTimeout => "own_timeout", Disturb::Undecodable => "undecodable", Disturb::Age { .. } => "session_age", Disturb::DupChallenge(_) => "dup_challenge", Disturb::TimeoutStream { .. } => "timeout_stream" }));
+    let out = finish(out, forwarder);
+    drop(a);
+    drop(b);
+    out
+}
+
+/// `held`, disturbance `TimeoutStream`: B keeps serving A while its own requests to A time out.
+async fn run_timeout_stream(env: Env, idx: u64, p: HeldPlan) -> CaseOut {
+    let mut out = CaseOut::new("held");
+    let (every_ms, lanes, ops) = match &p.disturb {
+        Disturb::TimeoutStream { every_ms, lanes, ops } => (*every_ms, *lanes, ops.clone()),
+        _ => unreachable!(),
+    };
+    out.variant = "the serving node's own requests to the requester time out one after the other; PING / FINDNODE".to_string();
+    let (ip_a, ip_b) = (ip_for(env, idx, 1), ip_for(env, idx, 2));
+    // A transmits once and waits 8 s: an answer that is lost is not covered up by a retransmission
+    let a_cfg = Cfg::patient();
+    // B gives up on its own requests quickly: one of them times out (and takes the others along)
+    // every few tens of milliseconds
+    let mut b_cfg = Cfg::generous();
+    b_cfg.request_timeout_ms = p.b_timeout_ms / 10;
+    b_cfg.retries = 1;
+    let mut hist = Hist::default();
+    let a = start_node(idx, 1, ip_a, &p.key_a, &a_cfg, &Advert::Honest, Listen::V4, &mut hist).await;
+    let b = start_node(idx, 2, ip_b, &p.key_b, &b_cfg, &Advert::Honest, Listen::V4, &mut hist).await;
+    out.hist = hist;
+    let (a, b) = match (a, b) {
+        (Some(a), Some(b)) => (a, b),
+        _ => return out.skipped("bind_failed"),
+    };
+    out.config.push(format!("A {} (requester): {}; listens on {}", ip_a, a_cfg.text(), a.sock));
+    out.config.push(format!("B {} (serving node): {}; listens on {}", ip_b, b_cfg.text(), b.sock));
+    // the session: B's challenge lives for its short request_timeout only, so a slow machine may need
+    // another attempt (nothing is asserted here; plain round trips are the subject of `basic`)
+    let op = "A.send_ping(B) (establishes the session; repeated if B's short-lived challenge expired)".to_string();
+    out.ops.push(op.clone());
+    let mut established = false;
+    for _ in 0..5 {
+        if let Some(Ok(_)) = within(Duration::from_secs(1), a.disc.send_ping(b.enr.clone())).await {
+            established = true;
+            break;
+        }
+    }
+    if !established {
+        return out.skipped("no_session_with_a_short_lived_challenge");
+    }
+    // B's own requests: each one is transmitted once and fails request_timeout later
+    let b = Arc::new(b);
+    let span = Duration::from_millis(b_cfg.request_timeout_ms + 700);
+    out.ops.push(format!("B.find_node_designated_peer(A's record, [300]) every {} ms for {} ms, not awaited (A's decoder rejects the request, each one times out after {} ms)", every_ms, span.as_millis(), b_cfg.request_timeout_ms));
+    let timed_out = Arc::new(std::sync::atomic::AtomicUsize::new(0));
+    let stream = {
+        let (node_b, a_enr, timed_out) = (b.clone(), a.enr.clone(), timed_out.clone());
+        tokio::spawn(async move {
+            let t0 = Instant::now();
+            while t0.elapsed() < span {
+                let f = node_b.disc.find_node_designated_peer(a_enr.clone(), vec![300]);
+                let timed_out = timed_out.clone();
+                tokio::spawn(async move {
+                    if let Some(Err(_)) = within(Duration::from_secs(6), f).await {
+                        timed_out.fetch_add(1, std::sync::atomic::Ordering::SeqCst);
+                    }
+                });
+                tokio::time::sleep(Duration::from_millis(every_ms)).await;
+            }
+        })
+    };
+    // A's requests, in several lanes at once (there is always a request between B's handler and B's
+    // service), from the moment the first of B's requests is about to time out
+    tokio::time::sleep(Duration::from_millis(b_cfg.request_timeout_ms.saturating_sub(50))).await;
+    let a = Arc::new(a);
+    let t0 = Instant::now();
+    let stop = Arc::new(std::sync::atomic::AtomicBool::new(false));
+    let mut lane_tasks = vec![];
+    for lane in 0..lanes {
+        let (a, b, ops, stop, timed_out) = (a.clone(), b.clone(), ops.clone(), stop.clone(), timed_out.clone());
+        lane_tasks.push(tokio::spawn(async move {
+            // (requests answered, failure: properties, class, values, operation)
+            let mut n = 0usize;
+            let mut k = lane as usize;
+            while t0.elapsed() < Duration::from_millis(700) && !stop.load(std::sync::atomic::Ordering::SeqCst) {
+                let op = &ops[k % ops.len()];
+                k += 1;
+                let detail = |dt: Duration| format!("lane {}, request {} of the lane, started {} ms after B's own requests had begun to time out ({} timed out by the end)", lane, n + 1, (t0.elapsed().saturating_sub(dt)).as_millis(), timed_out.load(std::sync::atomic::Ordering::SeqCst));
+                let failure: Option<(Vec<&'static str>, String, String)> = match op {
+                    Op::FindNode(ds) => {
+                        let (r, dt) = call(Duration::from_secs(5), a.disc.find_node_designated_peer(b.enr.clone(), ds.clone())).await;
+                        match r {
+                            Outcome::Ok(nodes) => {
+                                let expected: Vec<Enr> = if ds.contains(&0) { vec![b.disc.local_enr()] } else { vec![] };
+                                if same_records(&nodes, &expected) {
+                                    None
+                                } else {
+                                    Some((vec!["C14"], "FINDNODE answer is not exactly the table entries at the requested distances (own record iff distance 0, never the requester)".to_string(), format!("distances {:?}: expected {:?} received {:?}", ds, enr_set(&expected), enr_set(&nodes))))
+                                }
+                            }
+                            Outcome::Err(e) => Some((vec!["C14", "C04"], "FINDNODE to a live, honest node failed while that node's own requests to the requester were timing out (the requester transmits once and waits 8 s)".to_string(), format!("{} after {} ms ({})", e, dt.as_millis(), detail(dt)))),
+                            Outcome::Hung => Some((vec!["C14", "C04"], "FINDNODE to a live, honest node was not answered within 5 s while that node's own requests to the requester were timing out (the requester transmits once and waits 8 s)".to_string(), format!("waited {} ms ({})", dt.as_millis(), detail(dt)))),
+                        }
+                    }
+                    _ => {
+                        let (r, dt) = call(Duration::from_secs(5), a.disc.send_ping(b.enr.clone())).await;
+                        match r {
+                            Outcome::Ok(pong) => {
+                                if SocketAddr::new(pong.ip, pong.port) == a.sock && pong.enr_seq == b.disc.local_enr().seq() {
+                                    None
+                                } else {
+                                    Some((vec!["C14"], "PONG does not carry the responder's sequence number and exactly the source the PING came from".to_string(), format!("PING from {}: PONG seq {} ip {} port {}", a.sock, pong.enr_seq, pong.ip, pong.port)))
+                                }
+                            }
+                            Outcome::Err(e) => Some((vec!["C14", "C04"], "PING to a live, honest node failed while that node's own requests to the requester were timing out (the requester transmits once and waits 8 s)".to_string(), format!("{} after {} ms ({})", e, dt.as_millis(), detail(dt)))),
+                            Outcome::Hung => Some((vec!["C14", "C04"], "PING to a live, honest node was not answered within 5 s while that node's own requests to the requester were timing out (the requester transmits once and waits 8 s)".to_string(), format!("waited {} ms ({})", dt.as_millis(), detail(dt)))),
+                        }
+                    }
+                };
+                if let Some((props, class, values)) = failure {
+                    stop.store(true, std::sync::atomic::Ordering::SeqCst);
+                    return (n, Some((props, class, values, op_text(op))));
+                }
+                n += 1;
+            }
+            (n, None)
+        }));
+    }
+    let mut n = 0usize;
+    for (lane, t) in lane_tasks.into_iter().enumerate() {
+        if let Ok((served, failure)) = t.await {
+            n += served;
+            if let Some((props, class, values, op)) = failure {
+                out.ops.push(format!("lane {}: {} after {} answered requests of the lane", lane, op, served));
+                out.fail(&props, class, values);
+            }
+        }
+    }
+    out.ops.insert(2.min(out.ops.len()), format!("{} lanes of A at once, each a row of awaited requests to B for 700 ms: {}", lanes, ops.iter().map(op_text).collect::<Vec<_>>().join(", ")));
+    out.observed.push(format!("{} requests of A were answered; {} of B's own requests had timed out by then", n, timed_out.load(std::sync::atomic::Ordering::SeqCst)));
+    out.hist.add("e2e:held_timeout_stream");
+    out.hist.addn("e2e:held_timeout_stream_requests_served", n as u64);
+    stream.abort();
+    let _ = stream.await;
+    drop(a);
+    drop(b);
+    out
+}
+
+// ------------------------------------------------------------------------------------------------
+
+fn kind_weights(focus: Option<&str>) -> [u64; 8] {
+    match focus {
+        Some("C03") => [2, 0, 0, 0, 3, 6, 0, 0],
+        Some("C04") => [5, 5, 2, 0, 1, 0, 2, 3],
+        Some("C05") => [1, 0, 0, 0, 0, 0, 8, 0],
+        Some("C09") | Some("C10") => [1, 1, 8, 0, 0, 0, 0, 0],
+        Some("C12") => [2, 0, 0, 0, 7, 1, 0, 0],
+        Some("C13") => [8, 1, 0, 0, 1, 0, 0, 0],
+        Some("C14") => [5, 0, 0, 1, 4, 1, 3, 2],
+        Some("C17") => [2, 0, 0, 8, 0, 0, 0, 0],
+        Some("C20") => [7, 0, 0, 0, 3, 0, 2, 4],
+        _ => [5, 2, 2, 2, 2, 1, 2, 2],
+    }
+}
+
+/// The kind of a case (and, for `held`, a prescribed disturbance): the first cases go through the
+/// kinds in the order of their weights and then through the remaining disturbances of `held`, the
 /// others are drawn.
-fn pick_kind(rng: &mut Rng, idx: u64, focus: Option<&str>) -> usize {
+fn pick_kind(rng: &mut Rng, idx: u64, focus: Option<&str>) -> (usize, Option<u64>) {
     let w = kind_weights(focus);
-    let mut order: Vec<usize> = (0..6).filter(|k| w[*k] > 0).collect();
-    order.sort_by_key(|k| std::cmp::Reverse(w[*k]));
+    let mut kinds: Vec<usize> = (0..w.len()).filter(|k| w[*k] > 0).collect();
+    kinds.sort_by_key(|k| std::cmp::Reverse(w[*k]));
+    let subs = held_prescribed(focus);
+    let mut order: Vec<(usize, Option<u64>)> = kinds.iter().map(|k| (*k, if *k == 7 { Some(subs[0]) } else { None })).collect();
+    if w[7] > 0 {
+        order.extend(subs[1..].iter().map(|d| (7, Some(*d))));
+    }
     let drawn = rng.weighted(&w);
     if (idx as usize) < order.len() {
         order[idx as usize]
     } else {
-        drawn
+        (drawn, None)
     }
 }
 
 async fn run_case(env: Env, seed: u64, idx: u64, focus: Option<String>) -> CaseOut {
     let mut rng = Rng::new(seed.wrapping_mul(0x9E3779B97F4A7C15).wrapping_add(idx.wrapping_mul(0xD1B54A32D192ED03)).wrapping_add(0xE2E));
     let focus = focus.as_deref();
-    match pick_kind(&mut rng, idx, focus) {
+    let (kind, sub) = pick_kind(&mut rng, idx, focus);
+    match kind {
         0 => run_basic(env, idx, gen_basic(&mut rng, idx, focus)).await,
         1 => run_silent(env, idx, gen_silent(&mut rng)).await,
         2 => run_lookup(env, idx, gen_lookup(&mut rng)).await,
         3 => run_vote(env, idx, gen_vote(&mut rng)).await,
         4 => run_mapped(env, idx, gen_mapped(&mut rng, idx)).await,
-        _ => run_crossed(env, idx, gen_crossed(&mut rng)).await,
+        5 => run_crossed(env, idx, gen_crossed(&mut rng)).await,
+        6 => run_sendfail(env, idx, gen_sendfail(&mut rng, focus)).await,
+        _ => run_held(env, idx, gen_held(&mut rng, sub, focus)).await,
     }
 }
 
@@ -1573,7 +2483,7 @@ pub fn main(args: &[String]) {
         Some(x) => vec![x],
         None => (0..o.cases).collect(),
     };
-    for k in ["e2e:bind_retries", "e2e:case_panicked", "e2e:case_hung", "e2e:vote_record_moved", "e2e:vote_no_update_although_the_minimum_voted", "e2e:case_skipped_bind_failed", "e2e:case_skipped_no_dual_stack_sockets"] {
+    for k in ["e2e:bind_retries", "e2e:case_panicked", "e2e:case_hung", "e2e:vote_record_moved", "e2e:vote_no_update_although_the_minimum_voted", "e2e:case_skipped_bind_failed", "e2e:case_skipped_no_dual_stack_sockets", "e2e:held_inconclusive_machine_too_slow"] {
         sum.hist.addn(k, 0);
     }
     sum.hist.addn("e2e:env_any_loopback_address", env.multi_ip as u64);
@@ -1670,7 +2580,7 @@ pub fn main(args: &[String]) {
         }
     }
     sum.case_files = vec![];
-    sum.rule = "real nodes on loopback UDP sockets in real time, assembled through the public API (ConfigBuilder -> Discv5::new -> Discv5::start -> the real Service::spawn / Handler::spawn / Socket::new); each node of a case has its own address 127.x.y.z (x, y from the case number) so that bans by IP stay inside the case; keys, payloads, distances, configurations and operation lists from the case PRNG; kinds: basic (A and B: 3..7 of PING / FINDNODE at random distance lists against 0..6 generated records in B's table / TALK with respond, drop, late respond, ENR-less contact, B without event stream; in a third of the cases - four fifths under focus C13 / C04 - A's application bans B's IP and / or node id before the first or second operation, or A's filter has a limit of one unsolicited packet per IP / node in 20 s and B sends PINGs), silent (a request to a bound socket that never answers, request_timeout 300..600 ms, 0..2 retries, query_peer_timeout a quarter or eight times the request timeout), lookup (find_node over 3..7 silent candidates and optionally one live node, request_timeout 300..450 ms, parallelism 2..3, query_peer_timeout 100..200 ms or four request periods, query_timeout 60 s or 500..800 ms), vote (enr_peer_update_min 2..4 honest voters, A's record advertises nothing or another port), mapped (A on an application-supplied dual-stack IPv6 socket, B an IPv4 node whose record carries only its IPv4 socket, a foreign IPv6 socket or its mapped address), crossed (A with an IPv4 and a dual-stack IPv6 socket behind a forwarder that delivers the handshake to the other socket; controls through one socket); the first cases of a run go through the kinds in the order of their weight for the focused property, the rest is drawn; monitors state lower bounds on time only, every success has 5 s (request_timeout 2.5 s, two transmissions) before it counts as a failure; non-trivial = at least one operation; distinct = new (kind, variant)".to_string();
+    sum.rule = "real nodes on loopback UDP sockets in real time, assembled through the public API (ConfigBuilder -> Discv5::new -> Discv5::start -> the real Service::spawn / Handler::spawn / Socket::new); each node of a case has its own address 127.x.y.z (x, y from the case number) so that bans by IP stay inside the case; keys, payloads, distances, configurations and operation lists from the case PRNG; kinds: basic (A and B: 3..7 of PING / FINDNODE at random distance lists against 0..6 generated records in B's table / TALK with respond, drop, late respond, ENR-less contact, B without event stream; in a third of the cases - four fifths under focus C13 / C04 - A's application bans B's IP and / or node id before the first or second operation, or A's filter has a limit of one unsolicited packet per IP / node in 20 s and B sends PINGs), silent (a request to a bound socket that never answers, request_timeout 300..600 ms, 0..2 retries, query_peer_timeout a quarter or eight times the request timeout), lookup (find_node over 3..7 silent candidates and optionally one live node, request_timeout 300..450 ms, parallelism 2..3, query_peer_timeout 100..200 ms or four request periods, query_timeout 60 s or 500..800 ms), vote (enr_peer_update_min 2..4 honest voters, A's record advertises nothing or another port), mapped (A on an application-supplied dual-stack IPv6 socket, B an IPv4 node whose record carries only its IPv4 socket, a foreign IPv6 socket or its mapped address), crossed (A with an IPv4 and a dual-stack IPv6 socket behind a forwarder that delivers the handshake to the other socket; controls through one socket), sendfail (2..4 rounds: A is handed a PING / FINDNODE / TALK / table entry + lookup for a destination its send task cannot send to - an IPv6 socket address in an application-built contact of an IPv4-only node, or an IPv4 destination that a probe socket on A's address is refused by the OS: limited and loopback broadcast, class E, an unroutable network, port 0 - and 5..80 ms later A sends a PING / FINDNODE / TALK to the live node B, or B sends one to A, or A sends one to a plain UDP listener that decodes every datagram of A with the node id it was addressed to; with and without an established session), held (B's application holds a TALK request of A, which transmits once and waits 8 s; meanwhile B's own FINDNODE [300] to A, which A's decoder rejects, times out for good (request_timeout 300..500 ms, one transmission), or A sends B a FINDNODE [300], or the session, established by an earlier TALK and used by the held one at 60 % of session_timeout 4 s at A, B or both, becomes older than that, or a forwarder delivers 2..4 duplicates of A's first datagram right before A's handshake so that B may issue a second WHOAREYOU next to the new session that expires unanswered; then the application responds or drops the request object and A must receive exactly that within 5 s); the first cases of a run go through the kinds in the order of their weight for the focused property and then through the four disturbances of held, the rest is drawn; monitors state lower bounds on time only, every success has 5 s (request_timeout 2.5 s, two transmissions) before it counts as a failure; non-trivial = at least one operation; distinct = new (kind, variant)".to_string();
     sum.write(&o.out);
     println!(
         "e2e{}: {} cases, {} operations, {} distinct non-trivial, {} monitor failure signatures",
